@@ -149,6 +149,13 @@ Definition finish (st : state) (i : nat) (t : Z) (v : rv) (e : event) : option s
   | None => None
   end.
 
+(* TransformedDStream._step when `self._prev._current_rdd is None`: only _current_time is set *)
+Definition set_time (st : state) (i : nat) (t : Z) : option state :=
+  match nth_error (ns st) i with
+  | Some s => Some (mkSt (set_nth i (mkNs t (crdd s) (queue s) (fdone s)) (ns st)) (log st))
+  | None => None
+  end.
+
 (* the `if time_ <= self._current_time: return` guard of each class, regenerated from dstream.py *)
 Definition guard (nd : node) (t cur : Z) : bool :=
   match nd with
@@ -177,8 +184,10 @@ Fixpoint step (fuel : nat) (g : graph) (env : nat -> listing) (t : Z) (i : nat) 
             | Trans f p =>
                 match step fuel' g env t p st with
                 | Some st1 =>
-                    let a := crdd_at st1 p in
-                    finish st1 i t (f t a) (EvFire i t [a])
+                    match crdd_at st1 p with
+                    | RNone => set_time st1 i t    (* parent has no RDD yet: time advances, RDD kept, function not called *)
+                    | RRdd r => finish st1 i t (f t (RRdd r)) (EvFire i t [RRdd r])
+                    end
                 | None => None
                 end
             | TransWith f p1 p2 =>
@@ -477,3 +486,46 @@ Definition call_sem (c : call) (t : Z) (srcv : rv) (args : list rv) : rv :=
 
 (* an RDD value whose class bit is honest: an EmptyRDD instance has no partitions *)
 Definition rdd_ok (r : rdd) : Prop := ecls r = true -> parts r = [].
+
+(* ---------- the early return of TransformedDStream._step is not taken ----------
+   A TransformedDStream whose parent holds no RDD after the parent's step (a windowed stream before its
+   first emission -- C11 --, or a parent whose function returned None) only advances its time.  [live]
+   says this does not happen in the interval: every parent of a Trans node holds an RDD.  It holds for
+   every graph whose nodes used as parents are total ([graph_total]), in particular for the graphs of
+   programs whose user-supplied transform functions return RDDs and that do not derive streams from
+   foreachRDD actions ([prog_total]). *)
+Definition live (g : graph) (t : Z) (srcv : nat -> rv) : Prop :=
+  forall i f p, nth_error g i = Some (Trans f p) -> nth p (denot g t srcv) RNone <> RNone.
+
+Definition src_defined (g : graph) (srcv : nat -> rv) : Prop :=
+  forall i k, nth_error g i = Some (Src k) -> srcv i <> RNone.
+
+Definition always_live (g : graph) : Prop :=
+  forall t srcv, src_defined g srcv -> live g t srcv.
+
+Definition node_total (nd : node) : Prop :=
+  match nd with
+  | Src _ => True
+  | Trans f _ => forall t x, f t (RRdd x) <> RNone
+  | TransWith f _ _ => forall t x y, f t (RRdd x) (RRdd y) <> RNone
+  | Cogrouped _ _ _ _ => True
+  end.
+
+(* every node that some node uses as a parent is total *)
+Definition graph_total (g : graph) : Prop :=
+  forall i nd, nth_error g i = Some nd -> forall p, In p (parents nd) ->
+    exists ndp, nth_error g p = Some ndp /\ node_total ndp.
+
+Definition call_total (c : call) : Prop :=
+  match c with
+  | CTransform _ func => forall t x, func t (RRdd x) <> RNone
+  | CTransformWith _ _ func => forall t x y, func t (RRdd x) (RRdd y) <> RNone
+  | _ => True
+  end.
+Definition is_action (c : call) : bool := match c with CForeachRDD _ => true | _ => false end.
+
+(* user transform functions return RDDs; no stream is derived from a foreachRDD action *)
+Definition prog_total (p : list call) : Prop :=
+  forall k c, nth_error p k = Some c ->
+    call_total c /\
+    forall s, In s (call_args c) -> forall c', nth_error p s = Some c' -> is_action c' = false.
